@@ -71,6 +71,8 @@ type handler struct {
 	coordinator          *broker.GroupCoordinator
 	leaseManager         *metadata.PartitionLeaseManager
 	groupLeaseManager    *metadata.GroupLeaseManager
+	groupLeaseGen        map[string]uint64 // group -> lease generation the coordinator's in-memory copy belongs to
+	groupLeaseGenMu      sync.Mutex
 	s3Health             *broker.S3HealthMonitor
 	s3Namespace          string
 	brokerInfo           protocol.MetadataBroker
@@ -920,6 +922,7 @@ func (h *handler) acquireGroupLease(ctx context.Context, groupID string) int16 {
 	}
 	err := h.groupLeaseManager.Acquire(ctx, groupID)
 	if err == nil {
+		h.forgetGroupOfOlderLease(groupID)
 		return 0
 	}
 	if errors.Is(err, metadata.ErrNotOwner) || errors.Is(err, metadata.ErrShuttingDown) {
@@ -927,6 +930,25 @@ func (h *handler) acquireGroupLease(ctx context.Context, groupID string) int16 {
 	}
 	h.logger.Warn("group lease acquire failed", "group", groupID, "error", err)
 	return protocol.REQUEST_TIMED_OUT
+}
+
+// forgetGroupOfOlderLease makes the coordinator reload a group from the
+// metadata store the first time a request sees a new generation of the
+// group's lease. The coordinator keeps every group it has served in memory;
+// a copy from before this broker (re)gained the lease predates whatever the
+// coordinator in between did (newer generation, other members, other
+// assignments) and must not be served or written back.
+func (h *handler) forgetGroupOfOlderLease(groupID string) {
+	gen := h.groupLeaseManager.Generation(groupID)
+	h.groupLeaseGenMu.Lock()
+	defer h.groupLeaseGenMu.Unlock()
+	if h.groupLeaseGen == nil {
+		h.groupLeaseGen = make(map[string]uint64)
+	}
+	if h.groupLeaseGen[groupID] != gen {
+		h.groupLeaseGen[groupID] = gen
+		h.coordinator.ForgetGroup(groupID)
+	}
 }
 
 // acquirePartitionLeases acquires leases for all partitions in the request
